@@ -31,7 +31,7 @@ impl Method for Highest {
 //@end
 //@extract src/methods/highest_lowest.rs impl[Method for Highest]::next
 //@sig fn next(&mut self, value__r: &Self::Input) -> (r: ValueType)
-//@hint before if value >= self.value
+//@hint after let left_value = self.window.push(value);
 	broadcast use bits_axiom;
 	let ghost vw = self.window.view();
 	proof {
@@ -87,7 +87,7 @@ impl Method for Lowest {
 //@end
 //@extract src/methods/highest_lowest.rs impl[Method for Lowest]::next
 //@sig fn next(&mut self, value__r: &Self::Input) -> (r: ValueType)
-//@hint before if value <= self.value
+//@hint after let left_value = self.window.push(value);
 	broadcast use bits_axiom;
 	let ghost vw = self.window.view();
 	proof {
